@@ -32,6 +32,13 @@ def obs {α} (r : RSt) (o : Out α) (f : α → String) : RSt × String :=
 def applyF (W bw a c : Nat) (st : Nat × List Nat) (x : Nat) : (Nat × List Nat) × Nat :=
   ((st.1 + 1, x :: st.2), ((x * a + c + st.1) % 2 ^ W) &&& maskOf W bw)
 
+/-- `len()`, both ends of `size_hint()` and the next item of an iterator that still has to yield `l`,
+after `j` further steps -/
+def hintOf (j : Nat) (l : List Nat) : String :=
+  let rest := l.drop j
+  let n := rest.length
+  s!"{n} {n} {n} {match rest.head? with | some x => toString x | none => "none"}"
+
 def nat2 (x y : String) : Option (Nat × Nat) := do
   let a ← parseNat x; let b ← parseNat y; pure (a, b)
 
@@ -123,6 +130,54 @@ def rstep (r : RSt) (toks : List String) : RSt × String :=
       | .ok (.done _) => bad
       | .panic => reply r "panic" | .oob => reply r "oob"
     | _, _ => bad
+  -- ---- type-aware API coverage (API_COVERAGE_A.md) ----
+  -- the real `bit_field_vec!` forms: `[w]`, `[w; n; v]`, `[w; x, y, …]` (`[w => v; n]` is `macro_fill`)
+  | ["macro_new", bw] => match parseNat bw with
+    | some bw => reply { r with a := new W bw 0 } "ok" | none => bad
+  | ["macro_fill3", bw, n, v] => match nat2 bw n, parseNat v with
+    | some (bw, n), some v => mutate r (resize W (withCapacity W bw n) n v) | _, _ => bad
+  | ["macro_lit", bw, vs] => match parseNat bw, parseNatList vs with
+    | some bw, some vs => mutate r (extend W (withCapacity W bw vs.length) vs) | _, _ => bad
+  -- `AtomicBitFieldVec::new`, converted
+  | ["anew", bw, n] => match nat2 bw n with
+    | some (bw, n) => reply { r with a := new W bw n } "ok" | none => bad
+  -- `from_slice` from a bit-field vector of a wider word type (the values may not fit `W`)
+  | ["from_slice_x", vs] => match parseNatList vs with
+    | some vs => mutate r (fromSlice W vs) | none => bad
+  -- `addr_of`: the word holding the first bit of element `i` (safe slice indexing)
+  | ["addr_of", i] => match parseNat i with
+    | some i => reply r (if i * r.a.bw / W < r.a.words.size then s!"ok {i * r.a.bw / W}" else "panic")
+    | none => bad
+  -- `*_unchecked` / `set_len`, evaluated under their documented contract only
+  | ["set_len", n] => match parseNat n with
+    | some n => if n * r.a.bw ≤ W * r.a.words.size then reply { r with a := { r.a with len := n } } "ok"
+                else reply r "out-of-contract"
+    | none => bad
+  | ["get_unchecked", i] => match parseNat i with
+    | some i => if i < r.a.len then obs r (getU W r.a i) toString else reply r "out-of-contract"
+    | none => bad
+  | ["set_unchecked", i, v] => match nat2 i v with
+    | some (i, v) => if i < r.a.len && fits W r.a.bw v then mutate r (setU W r.a i v)
+                     else reply r "out-of-contract"
+    | none => bad
+  | ["get_unaligned_unchecked", i] => match parseNat i with
+    | some i => obs r (getUnaligned W r.a i) toString | none => bad
+  | ["mask"] => reply r s!"ok {maskOf W r.a.bw}"
+  -- `ExactSizeIterator::len`, `size_hint` and the next item of the checked iterator after `j` steps
+  | ["iter_hint", k, j] => match nat2 k j with
+    | some (k, j) => obs r (iterFrom W r.a k) (hintOf j) | none => bad
+  | ["into_iter_hint", k, j] => match nat2 k j with
+    | some (k, j) => obs r (iterFrom W r.a k) (hintOf j) | none => bad
+  | ["into_iter"] => obs r (iterFrom W r.a 0) fmtNatList
+  -- raw word write through `as_mut_slice` (safe indexing)
+  | ["word_set", j, x] => match nat2 j x with
+    | some (j, x) => if j < r.a.words.size then reply { r with a := { r.a with words := r.a.words.set! j x } } "ok"
+                     else reply r "panic"
+    | none => bad
+  -- `set_atomic` through the `&mut [W]` view converted to its atomic form and back
+  | ["svm_aset", i, v] => match nat2 i v with | some (i, v) => mutate r (set W r.a i v) | none => bad
+  | ["apar_reset"] => mutate r (reset W r.a)
+  | ["areset_dep"] => mutate r (reset W r.a)
   | _ => bad
 
 def runner : Runner := { σ := RSt, init := {}, step := rstep }
